@@ -43,6 +43,10 @@ RULE = ("genomes of 1..4 chromosomes (sizes 0..6; names where one is a prefix of
         "intervals gives the values where the intervals fit or refuses; GlobalOffset.from_local_interval / "
         "start_ends_from_intervals with the documented keyword do_clip (True and False) on entries overhanging chromosomes "
         "that are not the last one (op globalise: global starts/stops and the way back through to_local_interval). "
+        "Round 7: WHERE THE TABLE COMES FROM (src): the in-memory operations are also run on the same entries read from a "
+        "bed file (lazily parsed columns: Genome.read_intervals(file), bnp.open(file).read()), joined from two files with "
+        "np.concatenate and selected by a mask from a larger file; every combination of 0..3 entries per chromosome "
+        "(exactly one entry on the first / a middle / the last chromosome) x source x operation. "
         "Non-trivial = "
         ">= 2 included chromosomes and some entry touches a chromosome end or position 0")
 EXHAUSTIVE = {"quick": False, "thorough": False}
